@@ -86,6 +86,17 @@ func (s *Session) replayLemma(prop string, o *Obligation) (bool, map[string]inte
 	}
 	x := lit("x", "X")
 	y := lit("y", "Y")
+	if x == nil && isIntegerT(ki.S) {
+		// reference-level lemmas are about one constant code
+		switch lemma {
+		case "lowest":
+			x = u.lowestCode(ki.S)
+		case "highest":
+			x = u.highestCode(ki.S)
+		case "zero":
+			x = u.zeroCode(ki.S)
+		}
+	}
 	if x == nil {
 		det["note"] = "the model does not fix the input sample"
 		return false, det
